@@ -14,30 +14,30 @@ import (
 
 // BatchOut is what one worker process reports to the driver.
 type BatchOut struct {
-	Prop        string           `json:"prop"`
-	Tier        string           `json:"tier"`
-	From        int              `json:"from"`
-	Runs        int              `json:"runs"`
-	Enumerated  int              `json:"enumerated"`
-	Steps       int64            `json:"steps"`
-	SimNs       int64            `json:"sim_ns"`
-	WallMs      int64            `json:"wall_ms"`
-	Faults      map[string]int   `json:"faults"`
-	Rare        map[string]int   `json:"rare"`
-	SchedHashes []uint64         `json:"sched_hashes"`
-	PlanHashes  []uint64         `json:"plan_hashes"`
-	Interesting int              `json:"interesting"`
-	IntHashes   []uint64         `json:"int_hashes"`
-	Foreign     map[string]int   `json:"foreign"`
-	StepCap     int              `json:"step_cap"`
-	Known       map[string]int   `json:"known"`
+	Prop        string            `json:"prop"`
+	Tier        string            `json:"tier"`
+	From        int               `json:"from"`
+	Runs        int               `json:"runs"`
+	Enumerated  int               `json:"enumerated"`
+	Steps       int64             `json:"steps"`
+	SimNs       int64             `json:"sim_ns"`
+	WallMs      int64             `json:"wall_ms"`
+	Faults      map[string]int    `json:"faults"`
+	Rare        map[string]int    `json:"rare"`
+	SchedHashes []uint64          `json:"sched_hashes"`
+	PlanHashes  []uint64          `json:"plan_hashes"`
+	Interesting int               `json:"interesting"`
+	IntHashes   []uint64          `json:"int_hashes"`
+	Foreign     map[string]int    `json:"foreign"`
+	StepCap     int               `json:"step_cap"`
+	Known       map[string]int    `json:"known"`
 	KnownMsg    map[string]string `json:"known_msg"`
-	Violations  []FoundViolation `json:"violations"`
+	Violations  []FoundViolation  `json:"violations"`
 	Samples     []json.RawMessage `json:"samples"`
-	LogHashes   []uint64         `json:"log_hashes,omitempty"`
-	Probes      []uint32         `json:"probes,omitempty"`
-	Lin         map[string]int   `json:"lin,omitempty"`
-	Strategies  map[string]int   `json:"strategies"`
+	LogHashes   []uint64          `json:"log_hashes,omitempty"`
+	Probes      []uint32          `json:"probes,omitempty"`
+	Lin         map[string]int    `json:"lin,omitempty"`
+	Strategies  map[string]int    `json:"strategies"`
 }
 
 type FoundViolation struct {
@@ -335,4 +335,14 @@ func TestEnumCount(t *testing.T) {
 		n, _ = pd.EnumT(t, os.Getenv("VERIF_TIER"))
 	}
 	fmt.Printf("ENUM %d\n", n)
+}
+
+// TestMain: in a -race build the testing package fails the test as soon as the detector has reported
+// anything; the verdict of a C18 run is the filtered report list in the output file, not the exit code.
+func TestMain(m *testing.M) {
+	code := m.Run()
+	if simrt.RaceMode && os.Getenv("VERIF_MODE") != "" && code == 1 {
+		code = 0
+	}
+	os.Exit(code)
 }
